@@ -24,7 +24,7 @@ func init() {
 		ID: "C15",
 		Meta: func(tier string) fw.Meta {
 			return fw.Meta{
-				Flavours: []string{"plain", "race", "cover"},
+				Flavours: []string{"plain", "race", "cover", "386"},
 				Blocks:   16,
 				Procs:    16,
 				Rule: "case = a string s or a list ss. Exhaustive: every single byte 1..255 alone and embedded in four positions; every string of length <= 3 (<= 4 thorough) over a 24-byte alphabet of every shell metacharacter, both quotes, backslash, blank, tab, newline, glob/comment/tilde/assignment characters, two plain letters and a two-byte non-ASCII rune; every rune U+0080..U+FFFF (and a stride of the supplementary planes) alone, at the start of a word and of a list, plus byte-order marks, '#!', CR LF, escape sequences and option-like words in first position; a position sweep (one byte of every value at every offset of an otherwise plain word of every length 1..40 and around 64/128/4096; pairs of special characters at every two offsets up to length 26); strings of 4090..70000 bytes around common buffer sizes (quoted spans longer than 4096 and 65536 bytes); random lists of 0..4 such strings (incl. the empty string and the empty list) and random byte strings up to 40 bytes incl. invalid UTF-8. " +
